@@ -72,11 +72,47 @@ func ruleR9() *Rule {
 			if !c.check(len(releasers) == 1, "single-releaser", "-", "exactly one zap function unmaps a segment's mapping", fmt.Sprintf("%d functions call MMap.Unmap", len(releasers))) {
 				return
 			}
-			rel := releasers[0]
+			rel0 := releasers[0] // the function that unmaps
+			// the release routine may be split (`closeActual` -> `releaseFile`): climb single, unexported
+			// callers that do not touch the reference count themselves; `rel` is the outermost one
+			hasDecrement := func(f *ssa.Function) bool {
+				found := false
+				eachInstr(f, func(_ *ssa.BasicBlock, in ssa.Instruction) {
+					if st, ok := in.(*ssa.Store); ok {
+						if sn, fld, _, ok := fieldOf(st.Addr); ok && sn == "Segment" && fld == "refs" {
+							found = true
+						}
+					}
+				})
+				return found
+			}
+			rel := rel0
+			inChain := map[*ssa.Function]bool{rel0: true}
+			var callers0 []ssa.CallInstruction
+			for i := 0; i < 4; i++ {
+				var cl []ssa.CallInstruction
+				for _, cs := range p.callersOf(rel) {
+					if p.InZap(cs.Parent()) {
+						cl = append(cl, cs)
+					}
+				}
+				if i == 0 {
+					callers0 = cl
+				}
+				if len(cl) != 1 {
+					break
+				}
+				up := rootParent(cl[0].Parent())
+				if hasDecrement(up) || inChain[up] || (up.Object() != nil && up.Object().Exported()) {
+					break
+				}
+				rel = up
+				inChain[up] = true
+			}
 			rname := funcShortName(rel)
 			// (c) the descriptor of a Segment is closed only by the releaser
 			for i, cs := range fcloseSites {
-				c.check(cs.Parent() == rel, fmt.Sprintf("file-close-owner#%d", i+1), c.pos(cs), "Segment.f is closed only inside "+rname,
+				c.check(inChain[cs.Parent()], fmt.Sprintf("file-close-owner#%d", i+1), c.pos(cs), "Segment.f is closed only inside "+rname,
 					"the descriptor of an opened segment is closed in "+funcShortName(cs.Parent())+", outside the single release routine (double close / close while referenced)")
 			}
 			c.check(len(fcloseSites) >= 1, "file-close-sites", "-", "the Close of Segment.f is found", "no (*os.File).Close on Segment.f")
@@ -245,7 +281,7 @@ func ruleR9() *Rule {
 				scClose := p.Method("SegmentBase", "Close")
 				var bad []string
 				for fn, at := range unguarded {
-					if fn == scClose || fn == rel {
+					if fn == scClose || inChain[fn] {
 						continue
 					}
 					if fn.Signature.Recv() != nil && (isNamed(fn.Signature.Recv().Type(), zapPkgPath, "vectorIndexCache") || isNamed(fn.Signature.Recv().Type(), zapPkgPath, "synonymIndexCache")) {
@@ -282,7 +318,7 @@ func ruleR9() *Rule {
 
 			// (d) Close goes through the reference count
 			if cl := c.method("Segment", "Close"); cl != nil {
-				reachRel := p.reachesFunc(func(f *ssa.Function) bool { return f == rel })
+				reachRel := p.reachesFunc(func(f *ssa.Function) bool { return inChain[f] })
 				okc := true
 				var why []string
 				nDec := 0
@@ -291,7 +327,7 @@ func ruleR9() *Rule {
 					if f == nil {
 						continue
 					}
-					if f == rel {
+					if inChain[f] {
 						okc = false
 						why = append(why, "Close calls "+rname+" directly (bypasses the reference count)")
 					}
@@ -299,7 +335,7 @@ func ruleR9() *Rule {
 						okc = false
 						why = append(why, "Close releases a resource directly")
 					}
-					if reachRel[f] && f != rel {
+					if reachRel[f] && !inChain[f] {
 						nDec++
 					}
 				}
@@ -312,7 +348,7 @@ func ruleR9() *Rule {
 				// holder's reference leaves the count above zero for ever (mapping never released)
 				trd := func(in ssa.Instruction, ev uint64, _ bool) []uint64 {
 					if cs, ok := in.(ssa.CallInstruction); ok {
-						if f := staticCallee(cs); f != nil && reachRel[f] && f != rel {
+						if f := staticCallee(cs); f != nil && reachRel[f] && !inChain[f] {
 							if ev&1 != 0 {
 								return []uint64{ev | 2}
 							}
@@ -378,7 +414,7 @@ func ruleR9() *Rule {
 					return []uint64{ev | evSyn}
 				}
 				// a helper of package zap that clears them on every path (`clearCaches()`)
-				if f := staticCallee(cs); f != nil && p.InZap(f) && len(f.Blocks) > 0 && f != rel {
+				if f := staticCallee(cs); f != nil && p.InZap(f) && len(f.Blocks) > 0 && !inChain[f] {
 					sm, done := helperSum[f]
 					if !done {
 						helperSum[f] = 0
@@ -391,15 +427,15 @@ func ruleR9() *Rule {
 				}
 				return nil
 			}
-			pa := newPathAnalysis(rel, tr)
+			pa := newPathAnalysis(rel0, tr)
 			pa.run(0)
 			// what the (single) caller of the releaser has certainly cleared before calling it
 			var atCaller uint64
-			if len(callers) == 1 {
-				cpa := newPathAnalysis(callers[0].Parent(), tr)
+			if len(callers0) == 1 {
+				cpa := newPathAnalysis(callers0[0].Parent(), tr)
 				cpa.run(0)
 				atCaller = evVec | evSyn
-				st := cpa.statesBefore(callers[0])
+				st := cpa.statesBefore(callers0[0])
 				if len(st) == 0 {
 					atCaller = 0
 				}
@@ -418,11 +454,11 @@ func ruleR9() *Rule {
 				c.check(okc, fmt.Sprintf("clear-before-unmap#%d", i+1), c.pos(cs), "both per-segment caches are cleared before the mapping they point into is unmapped",
 					"a path reaches Unmap without vectorIndexCache.Clear and synonymIndexCache.Clear having run (cached FSTs / indexes would point into unmapped memory)")
 			}
-			deps := transitiveControlDeps(rel)
 			for i, cs := range fcloseSites {
-				if cs.Parent() != rel {
+				if !inChain[cs.Parent()] {
 					continue
 				}
+				deps := transitiveControlDeps(cs.Parent())
 				okc := true
 				var why string
 				for _, d := range deps[cs.Block()] {
